@@ -293,11 +293,17 @@ inductive RErr where
   | invalid (i : Nat) (why : Nat)  -- validation added by fixes/C07-1.diff (unused by the code before the repair)
 deriving DecidableEq, Repr
 
-/-- the block that strips "stupid quotes mandated by FITS" from a raw value -/
+/-- the copy loop that undoes FITS quote doubling: `out += *p; if (*p=='\'' && p+1<vend && p[1]=='\'') p++;` -/
+def undouble : Str → Str
+  | [] => []
+  | '\'' :: '\'' :: r => '\'' :: undouble r
+  | c :: r => c :: undouble r
+
+/-- the block that strips "stupid quotes mandated by FITS" from a raw value: opening quote, closing quote if it
+    is the last character, and (since the C16 repair) the doubling of quotes inside -/
 def stripQuotes (v : Str) : Str :=
   if v.head? = some '\'' then
-    if 2 ≤ v.length ∧ v.getLast? = some '\'' then (v.drop 1).dropLast
-    else v.drop 1
+    undouble (if 2 ≤ v.length ∧ v.getLast? = some '\'' then (v.drop 1).dropLast else v.drop 1)
   else v
 
 /-- both keyword loops: every card whose name is not reserved, in header order -/
